@@ -95,6 +95,17 @@ Theorem C20loop_engine_is_requests : forall rs c fuel e initial reader,
   snd (eng_loop rs c fuel e initial reader) = eng_after fuel rs c e (firstn (List.length made) inputs).
 Proof. exact loop_engine_is_requests. Qed.
 
+(* Loop over a persister (store without a record): the record in the store afterwards is the
+   request driver's session after the last request Loop made — one Finish, on every exit *)
+Theorem C20loop_stored_is_requests : forall rs c fuel initial reader,
+  let e := loop_persisted_init c in
+  let inputs := loop_inputs initial reader in
+  let made := loop_prefix true (long_resps fuel rs c e inputs) in
+  let e_last := eng_after fuel rs c e (firstn (List.length made) inputs) in
+  Forall no_exec_error made -> e_initd e_last = true ->
+  loop_stored c (eng_loop rs c fuel e initial reader) = Some (snap_of (v_st (e_v e_last)) (v_ca (e_v e_last))).
+Proof. exact loop_stored_is_requests. Qed.
+
 (* ---- (b) C01 ---------------------------------------------------------------------------------- *)
 Theorem C20loop_every_chunk_fits : forall rs c fuel e initial reader,
   PgInv c (e_v e) -> 0 < c_out c ->
@@ -239,7 +250,20 @@ Example C20loop_nonvacuous_trim_space :
   /\ trim_space (s2b (" 7 7 " ++ cr_s ++ lf_s)) = s2b "7 7".
 Proof. vm_compute. repeat split; reflexivity. Qed.
 
+(* the stored record after a session the engine ended (graceful end on the second line): no position,
+   one empty cache scope, no pending code; after EOF on the first page: at the root with its code pending *)
+Example C20loop_nonvacuous_stored :
+  let run (reader : string) := eng_loop (app_rsrc wit_loop_app) wit_loop_cfg 3000 (loop_persisted_init wit_loop_cfg) None (s2b reader) in
+  option_map (fun sn => (s_path (fst sn), c_frames (snd sn), s_code (fst sn))) (loop_stored wit_loop_cfg (run ("1" ++ lf_s ++ "0" ++ lf_s)%string))
+    = Some ([], [[]], [])
+  /\ option_map (fun sn => (s_path (fst sn), c_frames (snd sn))) (loop_stored wit_loop_cfg (run ""%string))
+    = Some ([s2b "root"], [[]; []])
+  /\ e_initd (snd (run ("1" ++ lf_s)%string)) = true.
+Proof. vm_compute. repeat split; reflexivity. Qed.
+
 Print Assumptions C20loop_output_is_requests.
+Print Assumptions C20loop_stored_is_requests.
+Print Assumptions C20loop_nonvacuous_stored.
 Print Assumptions C20loop_long_resps_are_long_responses.
 Print Assumptions C20loop_requests_are_driver_requests.
 Print Assumptions C20loop_requests_are_prefix.
